@@ -38,6 +38,10 @@ class K:
         if self is None:
             ctx.rec.append(None)
             return
+        if ctx.status[self.idx] == 'gone':
+            # the program had given up every strong reference before this call: only the dispatcher can have
+            # kept the object alive (the harness itself refers to handlers through ctx.strong and the World only)
+            ctx.late.append(self.idx)
         ctx.rec.append(self.idx)
         if armed:
             for j in ctx.kill[self.idx]:
@@ -86,6 +90,7 @@ class Ctx:
         self.ents = {}
         self.refs = {}
         self.rec = []
+        self.late = []              # handlers called although nothing but the dispatcher referred to them any more
         # model: 'live' must be reached, 'open' alive but detached (left open), 'removed' alive and must not be
         # reached, 'gone' no strong reference left anywhere
         self.status = {}
@@ -164,6 +169,7 @@ def run_program(sp, world_mode, cfg, kill, pre, mid, perm, what):
 
 def dispatch(sp, ctx, armed, what, when):
     del ctx.rec[:]
+    del ctx.late[:]
     try:
         ctx.d.dispatch('ev', ctx, armed)
     except Exception as ex:     # noqa
@@ -176,8 +182,14 @@ def judge(sp, ctx, before, victims, what, when):
     rec = list(ctx.rec)
     sp.check(None not in rec, 'none-receiver',
              '%s: %s invoked a callback with receiver None (receivers in call order: %r)' % (what, when, rec))
+    sp.check(not ctx.late, 'called-after-gone',
+             '%s: %s called handler(s) %r after an earlier callback of the same dispatch had dropped their last '
+             'strong reference (the dispatcher kept them alive); receivers in call order: %r'
+             % (what, when, list(ctx.late), rec))
     for i in sorted(before):
         n = rec.count(i)
+        if before[i] == 'live' and ctx.status[i] == 'gone' and n == 0:
+            sp.cover('died-before-its-turn')
         st = before[i]
         if st in ('gone', 'removed'):
             sp.check(n == 0, 'called-after-gone', '%s: %s reached handler %d, which was %s before it'
@@ -243,8 +255,8 @@ def h_weak(sp, k=2, world=True, cfgs=None, diag=False, drops=True):
 HARNESSES = {
     'weak': dict(fn=h_weak,
                  nontrivial=['died-during-dispatch', 'detached-alive-during-dispatch', 'survivors-and-dead'],
-                 required=['kill-relation', 'died-during-dispatch', 'detached-alive-during-dispatch',
-                           'survivors-and-dead', 'all-listener-orders']),
+                 required=['kill-relation', 'died-during-dispatch', 'died-before-its-turn',
+                           'detached-alive-during-dispatch', 'survivors-and-dead', 'all-listener-orders']),
 }
 
 TIERS = {
@@ -271,7 +283,8 @@ EXPLANATION = (
     'solver choices and the explorer visits every feasible combination.  The program runs natively on the real '
     'EventDispatcher / World with CPython reference counting, once per assignment of handlers to creation slots, '
     'so that every listener iteration order is exhibited (verified on every path by a probe dispatch).  Oracle: '
-    'no callback ever sees receiver None, dispatch raises nothing, weak references to handlers nobody holds are '
+    'no callback ever sees receiver None, no handler is called once an earlier callback of the same dispatch dropped '
+    'its last strong reference, dispatch raises nothing, weak references to handlers nobody holds are '
     'dead after del + gc.collect(), later dispatches reach exactly the handlers that are still attached.')
 RULE = ('one evaluation = one feasible path = one program (run under all k! listener orders); non-trivial = a '
         'handler died or was detached in the middle of a dispatch, or a later dispatch had both survivors and dead')
@@ -286,8 +299,10 @@ BOUNDS = {
 ASSUMPTIONS = [
     'a handler that is alive but was detached from the World by remove_component or delete_entity(immediate) '
     'may or may not be reached by later dispatches (whether detaching unregisters is C02); it is never reached twice',
-    'a handler made to disappear during a dispatch may or may not be reached by that dispatch, never with '
-    'receiver None',
+    'a handler made to disappear during a dispatch while somebody still holds it (kept by the program, or removed '
+    'with remove_handler) may or may not be reached by that dispatch; one whose last strong reference was dropped '
+    'by an earlier callback of the dispatch must not be called any more (neither with receiver None nor kept '
+    'alive by the dispatcher)',
     'handlers removed with remove_handler must not be reached later (dispatcher semantics, C03)',
     'handler objects define __hash__ as a per-slot constant (legal Python) so that listener order is '
     'reproducible; gc.collect() is only called when a weak reference is not already dead',
@@ -296,3 +311,5 @@ ASSUMPTIONS = [
 OUTSIDE = ['more than 3 handlers of one event', 'handlers kept alive only by reference cycles that gc has not '
            'collected yet at dispatch time', 'other Python implementations', 'deferred delete_entity (C05)',
            'threads']
+
+TECHNIQUE = 'bounded symbolic execution (symx/z3) of kill matrices under native CPython reference counting, all listener orders'
